@@ -218,7 +218,11 @@ def inp_units(s, units, controls_text="", rules_text=""):
     ctr, rul = [], []
     for i, c in enumerate(s["controls"]):
         ltype = "LINK"
-        val = c["value"] if c.get("attr", "status") == "status" else g(c["value"])
+        if c.get("attr", "status") == "status":
+            val = c["value"]
+        else:       # a setting, in the units of the target valve type
+            vt = [l["t"] for l in s["links"] if l["n"] == c["link"]][0]
+            val = g(c["value"] / (f["flow"] if vt == "FCV" else (f["pres"] if vt in ("PRV", "PSV", "PBV") else 1.0)))
         if c.get("rule"):
             if c["kind"] == "level":
                 cond = "TANK %s LEVEL %s %s" % (c["node"], {">": "ABOVE", "<": "BELOW"}[c["rel"]], g(c["thr"] / f["len"]))
